@@ -83,3 +83,55 @@ def rename_locals(source: str, salt: str = "") -> str:
             if isinstance(n, ast.Name) and n.id in mapping:
                 n.id = mapping[n.id]
     return ast.unparse(tree) + "\n"
+
+
+def swap_if_else(source: str) -> str:
+    """Every `if c: A else: B` whose else branch is not an elif chain becomes `if not c: B else: A` (a double negation is
+    removed).  Same behaviour, every branch polarity in the tree flipped."""
+    tree = ast.parse(source)
+
+    class T(ast.NodeTransformer):
+        def visit_If(self, node: ast.If):
+            self.generic_visit(node)
+            if node.orelse and not (len(node.orelse) == 1 and isinstance(node.orelse[0], ast.If)) \
+                    and not (len(node.body) == 1 and isinstance(node.body[0], ast.If)):
+                test = node.test
+                if isinstance(test, ast.UnaryOp) and isinstance(test.op, ast.Not):
+                    new_test = test.operand
+                else:
+                    new_test = ast.UnaryOp(op=ast.Not(), operand=test)
+                node.test, node.body, node.orelse = new_test, node.orelse, node.body
+            return node
+    tree = ast.fix_missing_locations(T().visit(tree))
+    return ast.unparse(tree) + "\n"
+
+
+def nest_after_early_exit(source: str) -> str:
+    """`if c: <... return / continue / break / raise>` followed by more statements becomes `if c: ... else: <the rest>`.
+    Same behaviour; guards written as early exits become nesting."""
+    tree = ast.parse(source)
+
+    def leaves(stmts) -> bool:
+        return bool(stmts) and isinstance(stmts[-1], (ast.Return, ast.Continue, ast.Break, ast.Raise))
+
+    def fold(stmts):
+        out = []
+        for i, s in enumerate(stmts):
+            if isinstance(s, ast.If) and not s.orelse and leaves(s.body) and i + 1 < len(stmts) \
+                    and not any(isinstance(x, (ast.FunctionDef, ast.AsyncFunctionDef, ast.ClassDef, ast.Import, ast.ImportFrom)) for x in stmts[i + 1:]):
+                s.orelse = fold(stmts[i + 1:])
+                out.append(s)
+                return out
+            out.append(s)
+        return out
+
+    class T(ast.NodeTransformer):
+        def generic_visit(self, node):
+            super().generic_visit(node)
+            for field in ("body", "orelse", "finalbody"):
+                block = getattr(node, field, None)
+                if isinstance(block, list) and block and isinstance(block[0], ast.stmt) and not isinstance(node, (ast.Module, ast.ClassDef)):
+                    setattr(node, field, fold(block))
+            return node
+    tree = ast.fix_missing_locations(T().visit(tree))
+    return ast.unparse(tree) + "\n"
